@@ -47,6 +47,15 @@ RULE = ('every (prior table contents, source table, fault position in {none, hea
         'committing at the wrong moment would be visible: the source fails after the load has already changed '
         'the pending table (rows deleted by todb or >=1 row inserted), or commit=False with a changed pending '
         'table, or a completed committed load whose result differs from the prior contents.  '
+        'schema= space: todb / appenddb(..., schema=S) and fromdb of S.t in worlds where S.t and the unqualified t '
+        'are different tables with non-empty contents - an ATTACHed database with a same-named table (S = archive '
+        'and S = main), a TEMP table shadowing main.t (S = main) - and, for file names, S = main; every fault '
+        'position x commit flag x handle kind: only S.t may change (per the model), the other same-named table is '
+        'untouched as a fresh connection (attaching the same file) and as the caller\'s connection see it.  '
+        'Declared-type space: tables whose columns are declared untyped / INTEGER / TEXT / DATE / TIMESTAMP / NUMERIC '
+        '/ REAL x every one-row table over {None, 1, 1.5, "abc", "1", "1.5", ISO date, ISO timestamp, "12:30"}^2: '
+        'a fresh plain connection, fromdb through the handle and fromdb through a FILE NAME must return the values '
+        'written after sqlite\'s documented type affinity (refs/c17ref.stored, validated against the engine).  '
         'todb through a per-call-connection factory is refused by sqlite (truncate and insert land on two '
         'connections): accepted when the committed table is untouched, counted under info:...  '
         'Excluded: create=/drop= (need SQLAlchemy, outside the statement); connections in driver autocommit '
@@ -107,6 +116,8 @@ def setup(tier, seed):
 
 def bounds(tier, seed):
     return {'fault_space_max_rows': 4 if tier == 'thorough' else 3, 'fault_space_max_rows_behind_view': 4 if tier == 'thorough' else 2, 'fault_row_alphabet': len(_R3),
+            'schema_scenarios': list(SCHEMA_SCENARIOS), 'declared_types': [d or '<untyped>' for d in DECLARED_TYPES],
+            'typed_cells': [repr(c) for c in TYPED_CELLS],
             'exception_kinds': list(EXC_KINDS), 'source_styles': list(SRC_STYLES),
             'exception_space_max_rows': 3 if tier == 'thorough' else 1,
             'long_source_rows': [n for n, _ in _long_plan(tier)],
@@ -164,7 +175,18 @@ def items(tier, seed):
             if tier == 'thorough' and between != 'reads':
                 for ops in itertools.product(OPS, repeat=3):
                     seq3.append(('seq3', h, between, ops))
-    out = out + seqs + seq3
+    # schema= argument (attached database / TEMP table with the same table name) and declared column types
+    extra = []
+    for h in hs:
+        kind, flavor = HANDLES[h]
+        for op in OPS:
+            for scen in SCHEMA_SCENARIOS:
+                if kind in SCHEMA_SCENARIOS[scen]['handles']:
+                    extra.append(('schema', h, op, scen))
+            if tier == 'thorough' or flavor == 'legacy':
+                for decl in DECLARED_TYPES:
+                    extra.append(('types', h, op, decl))
+    out = out + extra + seqs + seq3
     if tier == 'thorough':
         out = [it for it in out if not (HANDLES[it[1]][0] == 'mkcurs-newconn' and
                                         (it[0] == 'seq3' or (HANDLES[it[1]][1] == 'pep249' and
@@ -174,8 +196,30 @@ def items(tier, seed):
         # its cross with exception types, long sources, hostile identifiers and view-wrapped sources is thorough-only
         out = [it for it in out if not (HANDLES[it[1]][0] == 'mkcurs-newconn'
                                         and (it[0] in ('exc', 'long', 'hostile') or (it[0] == 'fault' and it[4] == 'view')))]
+        out = [it for it in out if not (it[0] == 'schema' and HANDLES[it[1]] == ('mkcurs-newconn', 'pep249'))]
     return out
 
+
+# schema= space: worlds in which <schema>.<table> and the unqualified <table> are (or are not) different tables
+SCHEMA_SCENARIOS = collections.OrderedDict([
+    # an ATTACHed database 'archive' holds a table of the same name as main; load into archive.t
+    ('attached, schema=archive', {'schema': 'archive', 'other': 'main', 'temp': False,
+                                  'handles': ('connection', 'cursor', 'mkcurs', 'mkcurs-newconn')}),
+    # same world, load into main.t (the unqualified name means main.t as well)
+    ('attached, schema=main', {'schema': 'main', 'other': 'archive', 'temp': False,
+                               'handles': ('connection', 'cursor', 'mkcurs', 'mkcurs-newconn')}),
+    # a TEMP table of the same name shadows main.t on the caller's connection; load into main.t
+    ('temp table shadows, schema=main', {'schema': 'main', 'other': 'temp', 'temp': True,
+                                         'handles': ('connection', 'cursor', 'mkcurs')}),
+    # petl opens the connection itself: only the file's own schema can be named
+    ('file name, schema=main', {'schema': 'main', 'other': None, 'temp': False, 'handles': ('filename',)}),
+])
+SCHEMA_PRIORS = {'main': [(101, 'main-1'), (102, 'main-2')], 'archive': [(201, 'arch-1')],
+                 'temp': [(301, 'temp-1'), (302, None)]}
+
+# declared-type space
+DECLARED_TYPES = ('', 'INTEGER', 'TEXT', 'DATE', 'TIMESTAMP', 'NUMERIC', 'REAL')
+TYPED_CELLS = (None, 1, 1.5, 'abc', '1', '1.5', '2020-01-02', '2020-01-02 03:04:05', '12:30')
 
 BOUNDARIES = (10, 16, 32, 50, 64, 100, 128, 200, 250, 256, 500, 512, 1000, 1024, 2000, 2048)
 BOUNDARIES_LONG = BOUNDARIES + (2500, 4096, 5000, 8192, 10000)
@@ -285,6 +329,32 @@ def cases_of(item, tier):
                     c['steps'] = [{'op': op, 'commit': commit, 'header': ('a', 'b'), 'rows': rows,
                                    'fault': fault, 'src': 'raw', 'reads': evs}]
                     yield c
+    elif kind == 'schema':
+        _, _, op, scen = item
+        for n in range(0, 3):
+            rows = (_SEQROWS[0] + _SEQROWS[1])[:n]
+            for fault in _fault_positions(n, True):
+                for commit in (True, False):
+                    c = dict(base)
+                    c['kind'] = 'schema'
+                    c['scenario'] = scen
+                    c['steps'] = [{'op': op, 'commit': commit, 'header': ('a', 'b'), 'rows': rows,
+                                   'fault': fault, 'src': 'raw'}]
+                    yield c
+    elif kind == 'types':
+        _, _, op, decl = item
+        tables = [[]] + [[(x, y)] for x in TYPED_CELLS for y in TYPED_CELLS]
+        if tier == 'thorough':
+            tables += [[(x, 'abc'), (y, 1)] for x in TYPED_CELLS for y in TYPED_CELLS]
+        for tbl in tables:
+            for commit in ((True, False) if tier == 'thorough' else (True,)):
+                c = dict(base)
+                c['kind'] = 'types'
+                c['declared'] = decl
+                c['prior'] = [(7, 'old')]
+                c['steps'] = [{'op': op, 'commit': commit, 'header': ('a', 'b'), 'rows': tbl,
+                               'fault': None, 'src': 'raw'}]
+                yield c
     elif kind == 'hostile':
         _, _, op = item
         for n in range(0, 3 if tier == 'thorough' else 2):
@@ -700,6 +770,249 @@ def run_case(case, counts=None):
     return problems
 
 
+def _make_handle(kind, flavor, path, setup_conn):
+    """(handle, caller connection or None).  setup_conn(connection) prepares every connection the caller opens
+    (ATTACH ...)."""
+    def connect(timeout=None):
+        kw = {}
+        if timeout is not None:
+            kw['timeout'] = timeout
+        if flavor == 'pep249':
+            c = sqlite3.connect(path, autocommit=True, **kw)
+            setup_conn(c)                      # ATTACH is not possible inside the always-open transaction
+            c.autocommit = False
+        else:
+            c = sqlite3.connect(path, **kw)
+            setup_conn(c)
+        return c
+    if kind == 'filename':
+        return path, None
+    if kind == 'mkcurs-newconn':
+        return (lambda: connect(0).cursor()), None
+    conn = connect()
+    if kind == 'connection':
+        return conn, conn
+    if kind == 'cursor':
+        return conn.cursor(), conn
+    if kind == 'mkcurs':
+        return conn.cursor, conn
+    raise ValueError(kind)
+
+
+def _cleanup(conn, paths):
+    if conn is not None:
+        try:
+            conn.close()
+        except Exception:
+            pass
+    gc.collect()
+    for path in paths:
+        for p in (path, path + '-journal', path + '-wal', path + '-shm'):
+            try:
+                os.unlink(p)
+            except OSError:
+                pass
+
+
+def run_schema_case(case, counts=None):
+    """todb / appenddb(..., schema=...) in a world where <schema>.t and the unqualified t may be different tables."""
+    global _N
+    _N += 1
+    counts = counts if counts is not None else {}
+    base = os.path.join(env.worker_dir(), 'c17s-%d-%d' % (os.getpid(), _N))
+    path, apath = base + '.db', base + '-archive.db'
+    scen = SCHEMA_SCENARIOS[case['scenario']]
+    schema, other = scen['schema'], scen['other']
+    step = case['steps'][0]
+    kind = case['handle']
+    problems = []
+    conn = None
+    sel = 'SELECT a, b FROM %s."t"'
+
+    def attach(c):
+        c.execute('ATTACH DATABASE ? AS archive', (apath,))
+
+    def fresh(which):
+        c = sqlite3.connect(path)
+        try:
+            attach(c)
+            return c.execute(sel % _q(which)).fetchall()
+        finally:
+            c.close()
+
+    def group(sig):
+        return '%s(%s handle, schema=) | %s' % (step['op'], kind, sig)
+
+    try:
+        for p_, rows in ((path, SCHEMA_PRIORS['main']), (apath, SCHEMA_PRIORS['archive'])):
+            c0 = sqlite3.connect(p_)
+            c0.execute('CREATE TABLE t (a, b)')
+            c0.executemany('INSERT INTO t VALUES (?, ?)', rows)
+            c0.commit()
+            c0.close()
+        handle, conn = _make_handle(kind, case['flavor'], path, attach if kind != 'filename' else (lambda c: None))
+        if scen['temp']:
+            conn.execute('CREATE TEMP TABLE t (a, b)')
+            conn.executemany('INSERT INTO temp.t VALUES (?, ?)', SCHEMA_PRIORS['temp'])
+            conn.commit()
+
+        def own(which):
+            return conn.execute(sel % _q(which)).fetchall() if conn is not None else fresh(which)
+
+        owns = kind in NO_CALLER_CONNECTION
+        t_committed_before = fresh(schema)
+        t_view_before = own(schema)
+        o_committed_before = fresh(other) if other not in (None, 'temp') else None
+        o_view_before = own(other) if other is not None else None
+        exp_committed, exp_view = ref.expect(step['op'], owns, step['commit'], step['fault'],
+                                             t_committed_before, t_view_before, step['rows'])
+        fn = etl.todb if step['op'] == 'todb' else etl.appenddb
+        raised = None
+        counts['transitions'] = counts.get('transitions', 0) + 1
+        try:
+            fn(_source(step, LOGICAL), handle, 't', schema=schema, commit=step['commit'])
+        except Exception as e:
+            raised = (type(e).__name__, str(e)[:200])
+        if kind == 'mkcurs-newconn':
+            gc.collect()
+        t_committed_after = fresh(schema)
+        counts['last'] = (raised is not None, len(t_committed_after), 'schema')
+        counts['evals'] = counts.get('evals', 0) + 2
+        counts['nontrivial_step'] = other is not None       # a wrongly addressed statement would hit the other table
+        if (step['fault'] is None and raised is not None and kind == 'mkcurs-newconn' and step['op'] == 'todb'
+                and ref.bag(t_committed_after) == ref.bag(t_committed_before)):
+            counts['info_todb_newconn_refused'] = 1
+            return problems
+        if step['fault'] is None and raised is not None:
+            problems.append((group('raised although the source did not fail'), 0, 'returns normally',
+                             '%s: %s' % raised, '%s(schema=%r) raised %s' % (step['op'], schema, raised[0])))
+            return problems
+        if ref.bag(t_committed_after) != ref.bag(exp_committed):
+            problems.append((group('the table named by schema= does not hold what a fresh connection should see'), 0,
+                             _show(exp_committed), _show(t_committed_after),
+                             '%s(schema=%r, commit=%s) fault position %r [%s]'
+                             % (step['op'], schema, step['commit'], step['fault'], case['scenario'])))
+        # the same-named table outside the schema: untouched, committed and on the caller's connection
+        if other is not None:
+            if o_committed_before is not None:
+                o_after = fresh(other)
+                if ref.bag(o_after) != ref.bag(o_committed_before):
+                    problems.append((group('a table of the same name outside the given schema was changed'), 0,
+                                     _show(o_committed_before), _show(o_after),
+                                     '%s(schema=%r): %s.t as a fresh connection sees it [%s]'
+                                     % (step['op'], schema, other, case['scenario'])))
+            o_view_after = own(other)
+            if ref.bag(o_view_after) != ref.bag(o_view_before):
+                problems.append((group('a table of the same name outside the given schema was changed on the '
+                                       'caller\'s connection'), 0, _show(o_view_before), _show(o_view_after),
+                                 '%s(schema=%r, commit=%s): %s.t through the caller\'s connection [%s]'
+                                 % (step['op'], schema, step['commit'], other, case['scenario'])))
+        if step['fault'] is None:
+            counts['evals'] += 1
+            counts['transitions'] += 1
+            try:
+                back = list(etl.fromdb(handle, 'SELECT * FROM %s."t"' % _q(schema)))
+                got = [tuple(r) for r in back[1:]]
+                err = None
+            except Exception as e:
+                got, err = [], '%s: %s' % (type(e).__name__, str(e)[:200])
+            if err is not None or ref.bag(got) != ref.bag(exp_view):
+                problems.append((group('fromdb through the same handle does not return the rows written'), 0,
+                                 _show(exp_view), err if err is not None else _show(got),
+                                 'fromdb of %s.t after %s(schema=, commit=%s)' % (schema, step['op'], step['commit'])))
+    finally:
+        _cleanup(conn, (path, apath))
+    return problems
+
+
+def run_types_case(case, counts=None):
+    """Round trip into a table whose columns have DECLARED types; reference: sqlite's documented type affinity."""
+    global _N
+    _N += 1
+    counts = counts if counts is not None else {}
+    path = os.path.join(env.worker_dir(), 'c17t-%d-%d.db' % (os.getpid(), _N))
+    decl = case['declared']
+    step = case['steps'][0]
+    kind = case['handle']
+    problems = []
+    conn = None
+    sel = 'SELECT a, b FROM t'
+
+    def fresh():
+        c = sqlite3.connect(path)
+        try:
+            return c.execute(sel).fetchall()
+        finally:
+            c.close()
+
+    def group(sig):
+        return '%s(%s handle, declared column types) | %s' % (step['op'], kind, sig)
+
+    try:
+        c0 = sqlite3.connect(path)
+        c0.execute('CREATE TABLE t (a %s, b %s)' % (decl, decl))
+        c0.executemany('INSERT INTO t VALUES (?, ?)', case['prior'])
+        c0.commit()
+        c0.close()
+        handle, conn = _make_handle(kind, case['flavor'], path, lambda c: None)
+        owns = kind in NO_CALLER_CONNECTION
+        committed_before = fresh()
+        view_before = conn.execute(sel).fetchall() if conn is not None else committed_before
+        rows_stored = [tuple(ref.stored(v, decl) for v in r) for r in step['rows']]
+        exp_committed, exp_view = ref.expect(step['op'], owns, step['commit'], None,
+                                             committed_before, view_before, rows_stored)
+        fn = etl.todb if step['op'] == 'todb' else etl.appenddb
+        raised = None
+        counts['transitions'] = counts.get('transitions', 0) + 1
+        try:
+            fn(_source(step, LOGICAL), handle, 't', commit=step['commit'])
+        except Exception as e:
+            raised = (type(e).__name__, str(e)[:200])
+        if kind == 'mkcurs-newconn':
+            gc.collect()
+        committed_after = fresh()
+        counts['last'] = (raised is not None, len(committed_after), 'types')
+        counts['evals'] = counts.get('evals', 0) + 1
+        counts['nontrivial_step'] = any(ref.cellkey(x) != ref.cellkey(y)
+                                        for r, q in zip(step['rows'], rows_stored) for x, y in zip(r, q)) \
+            or any(isinstance(v, str) and v[:1].isdigit() for r in step['rows'] for v in r)
+        if raised is not None and kind == 'mkcurs-newconn' and step['op'] == 'todb' \
+                and ref.bag(committed_after) == ref.bag(committed_before):
+            counts['info_todb_newconn_refused'] = 1
+            return problems
+        if raised is not None:
+            problems.append((group('raised although the source did not fail'), 0, 'returns normally',
+                             '%s: %s' % raised, '%s raised %s' % (step['op'], raised[0])))
+            return problems
+        if ref.bag(committed_after) != ref.bag(exp_committed):
+            problems.append((group('a fresh connection does not see the values written (after type affinity)'), 0,
+                             _show(exp_committed), _show(committed_after),
+                             '%s(commit=%s) into columns declared %r' % (step['op'], step['commit'], decl or 'untyped')))
+        # read back through petl: the same handle, and a file name
+        for reader, target, want in (('the same handle', handle, exp_view), ('a file name', path, exp_committed)):
+            counts['evals'] += 1
+            counts['transitions'] += 1
+            try:
+                back = list(etl.fromdb(target, 'SELECT * FROM t'))
+                got = [tuple(r) for r in back[1:]]
+                err = None
+            except Exception as e:
+                got, err = [], '%s: %s' % (type(e).__name__, str(e)[:200])
+            if kind == 'mkcurs-newconn':
+                gc.collect()
+            if err is not None or ref.bag(got) != ref.bag(want):
+                problems.append((group('fromdb through %s does not return the values written' % reader), 0,
+                                 _show(want), err if err is not None else _show(got),
+                                 'fromdb via %s after %s(commit=%s) into columns declared %r'
+                                 % (reader, step['op'], step['commit'], decl or 'untyped')))
+    finally:
+        _cleanup(conn, (path,))
+    return problems
+
+
+_RUNNERS = {'schema': run_schema_case, 'types': run_types_case}
+
+
 def _record(acc, case, problems):
     for group, si, expected, observed, msg in problems:
         vc = dict(case)
@@ -711,8 +1024,10 @@ def run_item(item, acc):
     first = True
     for case in cases_of(item, _TIER):
         counts = {}
-        problems = run_case(case, counts)
+        problems = _RUNNERS.get(case.get('kind'), run_case)(case, counts)
         acc.states += 1
+        if case.get('kind'):
+            acc.counters['%s space:%s' % (case['kind'], case['handle'])] += 1
         acc.evals += counts.get('evals', 0)
         acc.transitions += counts.get('transitions', 0)
         if counts.get('nontrivial_step'):
@@ -746,7 +1061,7 @@ def replay(case):
     group = case.get('group')
     case = dict(case)
     case.pop('group', None)
-    problems = run_case(case)
+    problems = _RUNNERS.get(case.get('kind'), run_case)(case)
     hit = [p for p in problems if group is None or p[0] == group]
     if not hit:
         return None
@@ -763,6 +1078,10 @@ def vacuity(cov, tier):
                 if not c.get('%s:%s:%s' % (op, h, k)):
                     bad.append('no %s load via %s handle with outcome class %s' % (op, h, k))
     for k in ('read events:cases with work pending on the connection while petl read', 'long-source loads'):
+        if not c.get(k):
+            bad.append('no case counted under %r' % k)
+    for k in ('schema space:connection', 'schema space:cursor', 'schema space:mkcurs', 'schema space:filename',
+              'types space:filename', 'types space:connection'):
         if not c.get(k):
             bad.append('no case counted under %r' % k)
     for e in EXC_KINDS:
